@@ -146,7 +146,74 @@ def run_shared(job, acc):
           f'{plain}')
 
 
+def run_moves(job, acc):
+    """The path laws after a subtree was re-attached elsewhere (what a
+    _move does: add_node under the target, then delete the source entry):
+    every node of the moved subtree - asked for its path BEFORE the move as
+    well - reports its new path, and path_to still leads from any node to
+    any other."""
+    _, tree_shape = job
+    tree = number_leaves(tree_shape)
+    node_paths = sorted(nodes(tree))
+    branches = [p for p in node_paths
+                if isinstance(_sub(tree, p), dict)]
+    for src in node_paths:
+        if not src:
+            continue
+        for dst in branches:
+            if dst[:len(src)] == src or dst == src[:-1]:
+                continue        # into itself / already there
+            acc.case(key=('move', tree_shape, src, dst))
+            case = {'law': 'move', 'tree': tree_shape, 'src': src,
+                    'dst': dst}
+            root = Store(to_config(tree))
+            by_path = {p: root.get_path(p) for p in node_paths}
+            for n in by_path.values():
+                n.path_for()            # asked before the move
+            moved = by_path[src]
+            by_path[dst].add_node(('moved',), moved)
+            by_path[src[:-1]]._delete_path((src[-1],))
+            now = {}
+            for p, n in by_path.items():
+                now[dst + ('moved',) + p[len(src):]
+                    if p[:len(src)] == src else p] = n
+            bad = None
+            for p, n in now.items():
+                if n.path_for() != p or root.get_path(n.path_for()) \
+                        is not n:
+                    bad = (f'node moved from {src} under {dst}: a node now '
+                           f'at {p} reports path_for() = {n.path_for()}')
+                    break
+            if bad is None:
+                for pa, a in now.items():
+                    for pb, b in now.items():
+                        try:
+                            ok = a.get_path(a.path_to(b)) is b
+                        except Exception:  # noqa
+                            ok = False
+                        if not ok:
+                            bad = (f'node moved from {src} under {dst}: '
+                                   f'{pa}.path_to({pb}) = {a.path_to(b)} '
+                                   f'does not lead there')
+                            break
+                    if bad:
+                        break
+            if bad:
+                acc.violate(fw.violation(
+                    'C17.path_for', 'stale-path-after-move', bad, case))
+                return
+
+
+def _sub(tree, path):
+    for k in path:
+        tree = tree[k]
+    return tree
+
+
 def run_tree(job, acc):
+    if job[0] == 'move':
+        run_moves(job, acc)
+        return
     if job[0] == 'shared':
         run_shared(job, acc)
         return
@@ -292,6 +359,18 @@ def run_tree(job, acc):
             if d2 != before:
                 V('C17.assoc_in', 'mutates-input',
                   f'assoc_in modified its input: {d2} != {before}', case)
+            # get_in reads what assoc_path wrote - also None and the other
+            # falsy values, which are not "missing"
+            for falsy in (None, 0, False, '', []):
+                d7 = assoc_path(copy.deepcopy(plain), p,
+                                copy.deepcopy(falsy))
+                back = get_in(d7, p, sentinel)
+                if back is sentinel or back != falsy or \
+                        type(back) is not type(falsy):
+                    V('C17.assoc_path', 'get_in-does-not-read-assoc_path',
+                      f'after assoc_path(d, {p}, {falsy!r}) get_in(d, p, '
+                      f'default) gives {back!r}', case)
+                    break
             # writing a DICTIONARY replaces what was there (it is not merged
             # into an existing branch)
             for newval in ({}, {'z': 9}):
@@ -404,6 +483,8 @@ def run(ctx):
     maxlen = BOUNDS[ctx.tier]['path_len']
     jobs = [(t, maxlen) for t in trees(3)]
     jobs += [('shared', t) for t in trees(3) if isinstance(t, dict)]
+    jobs += [('move', t) for t in (trees(2) if ctx.quick else trees(3))
+             if isinstance(t, dict)]
     acc = ctx.map(run_tree, jobs)
     norm_jobs(acc)
     return acc
@@ -413,8 +494,14 @@ def replay(case):
     acc = fw.Acc()
     if case['law'] == 'norm':
         norm_jobs(acc)
+    elif case['law'] == 'move':
+        run_moves(('move', case['tree']), acc)
     elif case['law'] == 'enum-shared':
         run_shared(('shared', case['tree']), acc)
     else:
         run_tree((case['tree'], max(4, len(case.get('path', ())))), acc)
     return [v for exs in acc.viol_examples.values() for v in exs]
+
+
+RULE += (
+    ' Falsy values and None written by assoc_path are read back by get_in with a default. Move law: every subtree re-attached under every other branch (add_node + delete of the source entry) after all nodes were asked for their path - path_for and path_to stay right.')
